@@ -2,6 +2,7 @@
 //!   bounded <check> --tier quick|thorough --seed N --out FILE [--known FILE]
 //!   bounded <check> --replay FILE
 mod harness;
+mod obs;
 mod ops;
 mod scenario;
 
@@ -503,12 +504,182 @@ fn build(check: &str, tier: &str, seed: u64) -> (Vec<Scenario>, String) {
     (out, scope)
 }
 
+
+// ------------------------------------------------------------------ eyeball value observables (C01, C02, C03, C16, C19)
+fn obs_enum(m: &obs::Model, depth: usize, cur: &mut Vec<obs::ObsOp>, out: &mut Vec<Vec<obs::ObsOp>>, maxh: (usize, usize, usize)) {
+    if depth == 0 {
+        out.push(cur.clone());
+        return;
+    }
+    for op in obs::enabled(m, maxh.0, maxh.1, maxh.2) {
+        let mut m2 = m.clone();
+        obs::model_step(&mut m2, &op);
+        cur.push(op);
+        obs_enum(&m2, depth - 1, cur, out, maxh);
+        cur.pop();
+    }
+}
+
+fn run_obs(check: &str, tier: &str, seed: u64, known: &Known) -> serde_json::Value {
+    use obs::*;
+    let quick = tier != "thorough";
+    let is_async = check == "obs-async";
+    let t0 = std::time::Instant::now();
+    // histories: (unique start?, ops)
+    let mut hist: Vec<(bool, Vec<ObsOp>)> = Vec::new();
+    let prefixes: Vec<(bool, Vec<ObsOp>)> = vec![
+        (false, vec![]),
+        (true, vec![]),
+        (false, vec![ObsOp::Subscribe, ObsOp::Poll(0)]),
+        (false, vec![ObsOp::CloneOwner, ObsOp::Subscribe, ObsOp::Downgrade]),
+        (true, vec![ObsOp::Subscribe, ObsOp::Poll(0), ObsOp::IntoShared]),
+        (false, vec![ObsOp::SubscribeReset, ObsOp::Subscribe, ObsOp::Poll(1), ObsOp::PollOtherWaker(1)]),
+    ];
+    let depth = if quick { 4 } else { 5 };
+    for (uniq, pre) in &prefixes {
+        let mut m = Model::new(*uniq);
+        for o in pre {
+            model_step(&mut m, o);
+        }
+        let d = if pre.is_empty() { depth } else { depth - 1 };
+        let mut seqs = Vec::new();
+        obs_enum(&m, d, &mut pre.clone(), &mut seqs, (3, 3, 2));
+        for s in seqs {
+            hist.push((*uniq, s));
+        }
+    }
+    if !quick {
+        // seeded random long histories
+        let mut s = seed.wrapping_mul(0x9E3779B97F4A7C15) | 1;
+        let mut next = move || {
+            s ^= s << 13;
+            s ^= s >> 7;
+            s ^= s << 17;
+            s
+        };
+        for _ in 0..200_000 {
+            let uniq = next() % 3 == 0;
+            let mut m = Model::new(uniq);
+            let mut ops = Vec::new();
+            for _ in 0..14 {
+                let en = enabled(&m, 3, 3, 2);
+                if en.is_empty() {
+                    break;
+                }
+                let o = en[(next() % en.len() as u64) as usize].clone();
+                model_step(&mut m, &o);
+                ops.push(o);
+            }
+            hist.push((uniq, ops));
+        }
+    }
+    let n = hist.len();
+    let idx = AtomicUsize::new(0);
+    let failures: Mutex<BTreeMap<String, (usize, serde_json::Value)>> = Mutex::new(BTreeMap::new());
+    let kinds: Mutex<BTreeSet<(String, &'static str)>> = Mutex::new(BTreeSet::new());
+    let threads = std::thread::available_parallelism().map(|x| x.get()).unwrap_or(4).min(16);
+    std::thread::scope(|sc| {
+        for _ in 0..threads {
+            sc.spawn(|| {
+                let mut lk: BTreeSet<(String, &'static str)> = BTreeSet::new();
+                let mut lf: BTreeMap<String, (usize, serde_json::Value)> = BTreeMap::new();
+                loop {
+                    let i = idx.fetch_add(1, Ordering::Relaxed);
+                    if i >= n {
+                        break;
+                    }
+                    let (uniq, ops) = &hist[i];
+                    let r = std::panic::catch_unwind(std::panic::AssertUnwindSafe(|| if is_async { run_history::<AsyncSys>(*uniq, ops) } else { run_history::<SyncSys>(*uniq, ops) }));
+                    let mut prevk = "start";
+                    for o in ops {
+                        lk.insert((prevk.to_string(), o.kind()));
+                        prevk = o.kind();
+                    }
+                    let f = match r {
+                        Ok(None) => continue,
+                        Ok(Some(f)) => f,
+                        Err(p) => {
+                            let msg = p.downcast_ref::<String>().cloned().or_else(|| p.downcast_ref::<&str>().map(|s| s.to_string())).unwrap_or_default();
+                            ObsFailure { property: "C01", classification: format!("{}/panic", if is_async { "async-lock" } else { "sync" }), what: format!("the library panicked: {}", msg), step: 0, expected: "no panic".into(), observed: msg }
+                        }
+                    };
+                    let mut props = vec![f.property];
+                    if is_async {
+                        props.push("C16");
+                    }
+                    let kn = known.matches(&f.classification);
+                    let key = format!("{}|{}|{}", f.classification, f.property, f.what);
+                    let j = serde_json::json!({
+                        "properties": props, "property": f.property, "classification": f.classification, "what": f.what, "step": f.step,
+                        "expected": f.expected, "observed": f.observed, "known": kn,
+                        "input": {"kind": "obs", "flavour": if is_async { "async-lock" } else { "sync" }, "unique_start": uniq, "ops": ops.iter().map(|o| o.to_text()).collect::<Vec<_>>()},
+                    });
+                    let e = lf.entry(key).or_insert((usize::MAX, serde_json::Value::Null));
+                    if ops.len() < e.0 {
+                        *e = (ops.len(), j);
+                    }
+                }
+                kinds.lock().unwrap().extend(lk);
+                let mut g = failures.lock().unwrap();
+                for (k, v) in lf {
+                    let e = g.entry(k).or_insert((usize::MAX, serde_json::Value::Null));
+                    if v.0 < e.0 {
+                        *e = v;
+                    }
+                }
+            });
+        }
+    });
+    let fl = failures.into_inner().unwrap();
+    let mut fv: Vec<&(usize, serde_json::Value)> = fl.values().collect();
+    fv.sort_by_key(|x| x.0);
+    let sample: Vec<String> = hist.get(n / 2).map(|h| h.1.iter().map(|o| o.to_text()).collect()).unwrap_or_default();
+    serde_json::json!({
+        "check": check, "tier": tier, "seed": seed,
+        "scope": format!("{} flavour; handle histories over: Set/SetIfNotEq/SetIfHashNotEq (keys {{0,1}}, every stored value tagged uniquely, equality and hash look at the key only), Update, UpdateIf(true/false), Take, write-guard setters, owner get/read, clone/drop/downgrade/upgrade/into_shared, subscribe/subscribe_reset, and per subscriber poll (two different wakers), next_now, next_ref_now, get, read, reset, clone, clone_reset, drop; at most 3 owners, 3 subscribers, 2 weak references; every sequence of depth {} from 2 fresh starts (shared, unique) and depth {} after 4 set-up prefixes{}", if is_async { "async-lock" } else { "sync" }, depth, depth - 1, if quick { "" } else { "; plus 200000 seeded random histories of length 14 (not exhaustive)" }),
+        "evaluations": n,
+        "distinct_nontrivial": kinds.into_inner().unwrap().len(),
+        "rule": "every history is executed on the real crate and on a reference model; results, readiness, wake-ups and counts are compared after every operation; non-trivial distinct cases = distinct (previous op kind, op kind) pairs executed",
+        "exhaustive": quick,
+        "samples": [{"unique_start": hist.get(n / 2).map(|h| h.0), "ops": sample}],
+        "failures": fv.iter().take(40).map(|x| x.1.clone()).collect::<Vec<_>>(),
+        "elapsed_s": t0.elapsed().as_secs_f64(),
+    })
+}
+
+fn replay_obs(v: &serde_json::Value) -> i32 {
+    use obs::*;
+    let inp = &v["input"];
+    let ops: Vec<ObsOp> = inp["ops"].as_array().unwrap().iter().map(|o| ObsOp::parse(o.as_str().unwrap()).expect("op")).collect();
+    let uniq = inp["unique_start"].as_bool().unwrap_or(false);
+    let is_async = inp["flavour"].as_str() == Some("async-lock");
+    println!("replaying on the real crate ({}): {:?}", if is_async { "async-lock" } else { "sync" }, ops.iter().map(|o| o.to_text()).collect::<Vec<_>>());
+    let r = std::panic::catch_unwind(std::panic::AssertUnwindSafe(|| if is_async { run_history::<AsyncSys>(uniq, &ops) } else { run_history::<SyncSys>(uniq, &ops) }));
+    match r {
+        Ok(None) => {
+            println!("passes (no divergence from the reference model on the current tree)");
+            0
+        }
+        Ok(Some(f)) => {
+            println!("FAILS: [{}] {} at step {}\n  expected: {}\n  observed: {}", f.classification, f.what, f.step, f.expected, f.observed);
+            1
+        }
+        Err(_) => {
+            println!("FAILS: the library panicked");
+            1
+        }
+    }
+}
+
 fn main() {
     let args = parse_args();
     let known = Known::load(&args.known);
     if let Some(rp) = &args.replay {
         let t = std::fs::read_to_string(rp).expect("replay file");
         let v: serde_json::Value = serde_json::from_str(&t).expect("json");
+        if v["input"]["kind"].as_str() == Some("obs") {
+            std::process::exit(replay_obs(&v));
+        }
         let sc = Scenario::from_json(&v["input"]).expect("scenario");
         println!("replaying on the real crates: {}", v["input"]);
         let o = std::panic::catch_unwind(std::panic::AssertUnwindSafe(|| run(&sc)));
@@ -532,6 +703,16 @@ fn main() {
     let t0 = std::time::Instant::now();
     let prev = std::panic::take_hook();
     std::panic::set_hook(Box::new(|_| {}));
+    if args.check == "obs" || args.check == "obs-async" {
+        let j = run_obs(&args.check, &args.tier, args.seed, &known);
+        std::panic::set_hook(prev);
+        let text = serde_json::to_string_pretty(&j).unwrap();
+        match &args.out {
+            Some(p) => std::fs::write(p, text).unwrap(),
+            None => println!("{}", text),
+        }
+        return;
+    }
     let (scs, scope) = build(&args.check, &args.tier, args.seed);
     if scs.is_empty() {
         eprintln!("unknown check {}", args.check);
